@@ -139,6 +139,24 @@ Definition run_filtered (s : sexp) : sexp :=
   | _ => bad_case
   end.
 
+(** filters that reject every program containing one of the listed sub-programs
+    (e.g. an automaton filter without a rule for them) *)
+Definition run_filtered_sub (s : sexp) : sexp :=
+  match s with
+  | L [tb; st; fu; rej; out] =>
+    match table_of_sexp tb, nt_of_sexp st, asNat fu, asListOf prog_of_sexp rej, asListOf prog_of_sexp out with
+    | Some tbl, Some x, Some fuel, Some rj, Some o =>
+      let Lg := language fuel tbl x in
+      L [ ofBool (table_ok tbl && check_filtered_gen (member_of fuel tbl x) Lg (hereditarily rj) o);
+          ofBool (nodupb prog_eqb o);
+          A (first_false (fun p => member_of fuel tbl x p && hereditarily rj p) o 0);
+          ofList sexp_of_prog (firstn 5 (filter (fun p => hereditarily rj p && negb (memb prog_eqb p o)) Lg));
+          ofNat (length Lg); ofNat (length (filter (hereditarily rj) Lg)); ofNat (length (filter (hereditarily rj) Lg)) ]
+    | _, _, _, _, _ => bad_case
+    end
+  | _ => bad_case
+  end.
+
 Definition merge_of_sexp (s : sexp) : option (nat * prog) :=
   match s with L [k; p] => do k' <- asNat k; do p' <- prog_of_sexp p; Some (k', p') | _ => None end.
 
@@ -244,6 +262,7 @@ Definition run_case (entry : Z) (s : sexp) : sexp :=
   | 3 => run_filtered s
   | 4 => run_merged s
   | 5 => run_language s
+  | 6 => run_filtered_sub s
   | 11 => run_u_once s
   | 12 => run_u_order s
   | 13 => run_u_filtered s
